@@ -32,6 +32,7 @@ func c06Gen(rt *rapid.T) wProg {
 	}
 	p.Sess = append([]int(nil), gPick(rt, [][]int{{0, 1, 2}, {0, 1, 2, 3}, {0, 0, 1, 2}, {0, 1, 1, 2, 3}}, "layout")...)
 	gGrpc(rt, &p, 20)
+	gLat(rt, &p, 25)
 	kind := "new"
 	if gPct(rt, 25) {
 		kind = "nch"
